@@ -8,6 +8,7 @@ import AvroModel.Impl.OcfHeader
 import AvroModel.Spec.Ocf
 import AvroModel.Spec.Observe
 import AvroModel.Impl.Single
+import AvroModel.Impl.Lifetimes
 open Avro Avro.Impl Driver
 
 def Driver.ExtTable.toDenExt (t : ExtTable) : Spec.DenExt :=
@@ -424,6 +425,69 @@ where
   /-- compare outcomes up to the `borrowed` flags -/
   unborrowStr (s : String) : String := (s.replace " 1" " 0")
 
+/-- `api <op>*`: a history of safe API calls around schemas and container readers (C10). The
+    ownership model predicts which calls are expressible and that no pointer into a freed schema
+    is ever used; the data results are fixed (`u1`, `v1 v2 v3 eof`). -/
+def runApi : P String := do
+  let ops ← get
+  set ([] : List String)
+  let numOf (op pre : String) : Option Nat :=
+    if op.startsWith pre then (op.drop pre.length).toNat? else none
+  let step := fun (acc : Lifetimes.St × List Nat × List Nat × List String) (op : String) =>
+    -- kinds: per handle (100 = builder-made recursive schema), reads: per reader
+    let (st, kinds, reads, outs) := acc
+    let live (h : Nat) : Bool := match st.handles[h]? with | some (some _) => true | _ => false
+    let rlive (r : Nat) : Bool := match st.readers[r]? with | some rd => rd.arcHeld | none => false
+    match numOf op "new" with
+    | some k => (Lifetimes.step st .newSchema, kinds ++ [k % 4], reads, outs ++ ["ok"])
+    | none =>
+    if op = "bad" then (st, kinds, reads, outs ++ ["err"]) else
+    if op = "cyc" then (Lifetimes.step st .newSchema, kinds ++ [100], reads, outs ++ ["ok"]) else
+    match numOf op "clone" with
+    | some h =>
+      if live h then (Lifetimes.step st (.cloneArc h), kinds ++ [kinds[h]?.getD 0], reads, outs ++ ["ok"])
+      else (st, kinds, reads, outs ++ ["-"])
+    | none =>
+    match numOf op "dropr" with
+    | some r =>
+      if rlive r then (Lifetimes.step st (.dropReader r), kinds, reads, outs ++ ["ok"])
+      else (st, kinds, reads, outs ++ ["-"])
+    | none =>
+    match numOf op "drop" with
+    | some h =>
+      if live h then (Lifetimes.step st (.dropHandle h), kinds, reads, outs ++ ["ok"])
+      else (st, kinds, reads, outs ++ ["-"])
+    | none =>
+    match numOf op "use" with
+    | some h =>
+      if live h then (Lifetimes.step st (.useHandle h), kinds, reads, outs ++ ["u1"])
+      else (st, kinds, reads, outs ++ ["-"])
+    | none =>
+    match numOf op "thr" with
+    | some h =>
+      if live h ∧ kinds[h]?.getD 0 < 100 then (Lifetimes.step st (.useHandle h), kinds, reads, outs ++ ["u1"])
+      else (st, kinds, reads, outs ++ ["-"])
+    | none =>
+    match numOf op "open" with
+    | some _ => (Lifetimes.step st .openReader, kinds, reads ++ [0], outs ++ ["ok"])
+    | none =>
+    match numOf op "rs" with
+    | some r =>
+      if rlive r then (Lifetimes.step st (.readerSchema r), kinds ++ [0], reads, outs ++ ["ok"])
+      else (st, kinds, reads, outs ++ ["-"])
+    | none =>
+    match numOf op "read" with
+    | some r =>
+      if rlive r then
+        let n := reads[r]?.getD 0
+        let o := if n < 3 then s!"v{n + 1}" else "eof"
+        (Lifetimes.step st (.readNext r), kinds, reads.set r (n + 1), outs ++ [o])
+      else (st, kinds, reads, outs ++ ["-"])
+    | none => (st, kinds, reads, outs ++ ["bad-op"])
+  let (st, _, _, outs) := ops.foldl step ({}, [], [], [])
+  let verdict := if st.useAfterFree then "VIOLATION the ownership model reaches a use of a freed schema" else "ok"
+  pure (" ".intercalate outs ++ " # " ++ verdict)
+
 /-! ### Container writer histories -/
 
 open Avro.Impl.Ocf in
@@ -696,6 +760,7 @@ def dispatch (line : String) : String :=
       | "skip" => some runSkip
       | "dealloc" => some runDealloc
       | "rt" => some runRt
+      | "api" => some runApi
       | "single" => some runSingle
       | "schema" => some runSchema
       | "graph" => some runGraph
